@@ -709,7 +709,15 @@ func c10(c *core.Ctx) {
 				}
 			}
 		}()
-		for st := 0; st < 40; st++ {
+		steps := 40
+		if k.Index < 3 {
+			steps = k.N(700, 70000) // one long life per key size: call counts cross 256, 512 (quick) and 65536 (thorough)
+			k.Count("long_lived_cipher_object_histories", 1)
+		}
+		for st := 0; st < steps; st++ {
+			if len(held) > 300 {
+				held = append(held[:64:64], held[len(held)-64:]...) // keep the oldest and the newest
+			}
 			fresh, _ := newCipher(kl, key)
 			seed := k.R.U64()
 			k.Eval(1)
@@ -751,7 +759,7 @@ func c10(c *core.Ctx) {
 		}
 		k.Distinct(fmt.Sprintf("hist|%d|%d", kl, k.Index/3%8))
 	})
-	c.Require("wrong_size_key_already_in_use_under_its_own_size", "key_buffer_reuse_cases", "short_read_sources", "fault_at_read_0", "fault_at_read_1", "lib_pad_0", "lib_pad_15")
+	c.Require("long_lived_cipher_object_histories", "wrong_size_key_already_in_use_under_its_own_size", "key_buffer_reuse_cases", "short_read_sources", "fault_at_read_0", "fault_at_read_1", "lib_pad_0", "lib_pad_15")
 }
 
 var _ = message.TypeSK
